@@ -241,7 +241,7 @@ Section Body.
     cbn [Outer.data_try_from]. intros H. apply accumulate_ok in H as [A ->].
     eexists. split; [reflexivity|]. split.
     - rewrite oks_length_all_ok by assumption. apply map_length.
-    - now apply oks_all_ok.
+    - rewrite (oks_all_ok _ A), !map_map. apply map_ext. intros ve. destruct (from_variant vc ve); reflexivity.
   Qed.
 
   Theorem data_try_from_struct_ok vc fc style fs v :
